@@ -210,6 +210,8 @@ impl<'a> Visitor<'a> {
 
     // todo: we really don't have to return Option<Value> from all of these children
     pub(crate) fn visit_stmt(&mut self, stmt: AstStmt) -> SassResult<Option<Value>> {
+        #[cfg(grass_verif)]
+        crate::verif::eval_tick();
         match stmt {
             AstStmt::RuleSet(ruleset) => self.visit_ruleset(ruleset),
             AstStmt::Style(style) => self.visit_style(style),
@@ -1791,6 +1793,8 @@ impl<'a> Visitor<'a> {
         let mut result = None;
 
         'outer: for val in list {
+            #[cfg(grass_verif)]
+            crate::verif::eval_tick();
             if each_stmt.variables.len() == 1 {
                 let val = self.without_slash(val);
                 self.env
@@ -1869,6 +1873,8 @@ impl<'a> Visitor<'a> {
 
         let mut i = from;
         'outer: while i != to {
+            #[cfg(grass_verif)]
+            crate::verif::eval_tick();
             self.env.scopes_mut().insert_var_last(
                 for_stmt.variable.node,
                 Value::Dimension(SassNumber {
@@ -1902,6 +1908,8 @@ impl<'a> Visitor<'a> {
                 .visit_expr(while_stmt.condition.clone())?
                 .is_truthy()
             {
+                #[cfg(grass_verif)]
+                crate::verif::eval_tick();
                 for stmt in while_stmt.body.clone() {
                     let val = visitor.visit_stmt(stmt)?;
                     if val.is_some() {
